@@ -214,9 +214,14 @@ def run_property(prop, tier, seed, args, t0):
 
     wall = time.time() - t0
     n_known_obl = len(set(n for _, n in known_hits if not n.startswith("bounded:")))
-    for kf, name in sorted(set((json.dumps(k, sort_keys=True), n) for k, n in known_hits)):
+    by_finding = {}
+    for k, n in known_hits:
+        by_finding.setdefault(json.dumps(k, sort_keys=True), set()).add(n)
+    for kf, names in sorted(by_finding.items()):  # one line per listed finding (with the obligations / inputs that hit it)
         kfd = json.loads(kf)
-        print(f"KNOWN-FINDING: property={prop} {kfd['what']} [{name}]")
+        names = sorted(names)
+        where = names[0] if len(names) == 1 else f"{len(names)} obligations/inputs, e.g. {names[0]}"
+        print(f"KNOWN-FINDING: property={prop} {kfd['what']} [{where}]")
     for name, rfile, suffix in violations:
         print(f"VIOLATION property={prop} replay={rfile}{suffix}")
         print(f"  failed obligation: {name}")
